@@ -111,7 +111,7 @@ Proof.
     eapply CLP_bind.
     + apply (CLP_entropy_image RPlain PData); [exact I|]. assert (2 ^ 8 < 2 ^ 29) by (apply N.pow_lt_mono_r; lia).
       change (2 ^ 8) with 256 in *. lia.
-    + intros _ _ bits. unfold mlift.
+    + intros _ _ bits. unfold mlift, color_index_block.
       assert (K : forall b, len_in_blocks tw (2 ^ b) = Ok (subsample tw b)) by (intros b; apply len_in_blocks_subsample; lia).
       destruct (n + 1 <=? 2); [change 8 with (2 ^ 3); rewrite K; apply (subsample_bounds tw 3); lia|].
       destruct (n + 1 <=? 4); [change 4 with (2 ^ 2); rewrite K; apply (subsample_bounds tw 2); lia|].
